@@ -19,12 +19,13 @@ import (
 	modzip "golang.org/x/mod/zip"
 	"pgregory.net/rapid"
 
+	"verif/harness/internal/gen"
 	"verif/harness/internal/pbt"
 	"verif/harness/internal/zipgen"
 )
 
 func init() {
-	pbt.Describe("file sets with distinct names (spaces, Unicode, leading '-', names containing '<hex64>  x' fragments that imitate summary lines, names with newline), small contents, generated listing orders; confusable pairs (bytes moved between a name and its content, contents swapped, names fused, one file split in two); real directory trees and zip archives written by the harness (archive/zip, Store or Deflate, arbitrary metadata), and module zips produced by zip.Create then extracted by zip.Unzip. Oracle: formula recomputed by the harness (sha256/hex/base64 called directly), permutation invariance, newline refusal, distinct sets => distinct hashes, HashZip == HashDir of the extraction. Non-trivial: >=2 files and a non-identity permutation, or a confusable pair, or a zip/dir with >=2 files. Distinct by JSON rendering.",
+	pbt.Describe("file sets with distinct names (spaces, Unicode, leading '-', names containing '<hex64>  x' fragments that imitate summary lines, names with newline), small contents, generated listing orders, sets padded to 50-1000 names (around 64/128/256) in 1 case of 12, contents delivered through short-read readers, a failing hash call before the checked one; confusable pairs (bytes moved between a name and its content, contents swapped, names fused, one file split in two); real directory trees and zip archives written by the harness (archive/zip, Store or Deflate, arbitrary metadata), and module zips produced by zip.Create then extracted by zip.Unzip. Oracle: formula recomputed by the harness (sha256/hex/base64 called directly), permutation invariance, newline refusal, distinct sets => distinct hashes, HashZip == HashDir of the extraction. Non-trivial: >=2 files and a non-identity permutation, or a confusable pair, or a zip/dir with >=2 files. Distinct by JSON rendering.",
 		"SHA-256 is collision-free on the generated inputs", "file sets have distinct names (the property speaks of sets)")
 }
 
@@ -50,10 +51,30 @@ func expand(fs []file) []file {
 }
 
 type setCase struct {
-	Files []file
-	Perm  []int // order in which the names are listed
-	Chunk int   // >0: contents are delivered in reads of at most this many bytes
-	Poison int  // >0: first make a hash call fail: its first file's reader returns an error after Poison-1 bytes
+	Files  []file
+	Perm   []int // order in which the names are listed
+	Chunk  int   // >0: contents are delivered in reads of at most this many bytes
+	Poison int   // >0: first make a hash call fail: its first file's reader returns an error after Poison-1 bytes
+	Pad    int   // >0: the set also contains Pad files "pad/0000".."pad/NNNN" (one byte each), listed in descending order in the middle
+}
+
+// expand adds the padding files of a case: large sets without large case renderings.
+func (c setCase) expand() ([]file, []int) {
+	if c.Pad <= 0 {
+		return c.Files, c.Perm
+	}
+	files := append([]file(nil), c.Files...)
+	n := len(c.Files)
+	half := len(c.Perm) / 2
+	perm := append([]int(nil), c.Perm[:half]...)
+	for i := c.Pad - 1; i >= 0; i-- {
+		perm = append(perm, n+i)
+	}
+	perm = append(perm, c.Perm[half:]...)
+	for i := 0; i < c.Pad; i++ {
+		files = append(files, file{Name: fmt.Sprintf("pad/%04d", i), Content: []byte{byte(i)}})
+	}
+	return files, perm
 }
 
 func formula(files []file) string {
@@ -142,6 +163,12 @@ func genName(t *rapid.T) string {
 		return rapid.StringN(0, 8, 16).Draw(t, "arb")
 	case 8:
 		return "a\nb" // refused
+	case 9:
+		if rapid.IntRange(0, 3).Draw(t, "long") == 0 {
+			// names whose summary line exceeds 4 KiB / 64 KiB buffers
+			n := []int{255, 256, 1000, 4029, 4030, 4096, 5000, 65536, 70000}[rapid.IntRange(0, 8).Draw(t, "longn")]
+			return rapid.StringMatching(`[a-z]{1,3}`).Draw(t, "longpfx") + "/" + strings.Repeat("n", n)
+		}
 	}
 	return rapid.StringMatching(`[a-z]{1,3}(/[a-z]{1,3}){0,3}`).Draw(t, "path")
 }
@@ -210,7 +237,11 @@ func genSet(t *rapid.T) setCase {
 	if rapid.IntRange(0, 4).Draw(t, "poison") == 0 {
 		poison = 1 + rapid.IntRange(0, 40).Draw(t, "poisonat")
 	}
-	return setCase{fs, rapid.Permutation(idx).Draw(t, "perm"), chunk, poison}
+	pad := 0
+	if gen.Chance(t, 8, "padded") {
+		pad = []int{50, 62, 63, 64, 65, 100, 127, 128, 129, 255, 256, 257, 1000}[gen.Uniform(t, 13, "pad")]
+	}
+	return setCase{fs, rapid.Permutation(idx).Draw(t, "perm"), chunk, poison, pad}
 }
 
 func validPerm(p []int, n int) bool {
@@ -240,7 +271,15 @@ func distinctNames(fs []file) bool {
 
 func checkSet(c setCase) pbt.Result {
 	r := pbt.Result{}
-	if !validPerm(c.Perm, len(c.Files)) || !distinctNames(c.Files) {
+	if !validPerm(c.Perm, len(c.Files)) || c.Pad < 0 || c.Pad > 5000 {
+		r.Skip = true
+		return r
+	}
+	if c.Pad > 0 {
+		r.Classes = append(r.Classes, "more than 50 files")
+	}
+	c.Files, c.Perm = c.expand()
+	if !distinctNames(c.Files) {
 		r.Skip = true
 		return r
 	}
@@ -478,6 +517,21 @@ func genTree(t *rapid.T) treeCase {
 		}
 		fs = append(fs, f)
 	}
+	// families of sibling directories at depth 1..8: every directory level gets more than one child somewhere
+	if gen.Chance(t, 30, "family") {
+		depth := rapid.IntRange(1, 8).Draw(t, "famdepth")
+		base := "fam"
+		for i := 1; i < depth; i++ {
+			base += "/" + []string{"a", "b", "internal", "x"}[gen.Uniform(t, 4, "famel")]
+		}
+		for _, rel := range [][]string{{"alpha/one.go", "beta/two.go"}, {"alpha/one.go", "beta/two.go", "gamma/deep/three.go", "z.go"}, {"a/1", "b/2", "c/3", "d/4"}, {"m/n/o/p.go", "m/n/q/r.go", "m/s.go"}}[gen.Uniform(t, 4, "famshape")] {
+			name := base + "/" + rel
+			if !seen[name] {
+				seen[name] = true
+				fs = append(fs, file{Name: name, Content: []byte(name)})
+			}
+		}
+	}
 	prefix := []string{"example.com/m@v1.0.0", "m@v1", "p", "github.com/A/b@v0.0.0-20200101000000-abcdefabcdef", "x y"}[rapid.IntRange(0, 4).Draw(t, "prefix")]
 	return treeCase{fs, prefix, []uint16{zip.Store, zip.Deflate}[rapid.IntRange(0, 1).Draw(t, "method")]}
 }
@@ -564,6 +618,55 @@ func checkTree(c treeCase) pbt.Result {
 	gz, err := dirhash.HashZip(zp, dirhash.Hash1)
 	if err != nil || gz != want {
 		r.Fail = pbt.Failf("hashzip", "HashZip of entries %q = (%s,%v), formula %s", names(prefixed), gz, err, want)
+		return r
+	}
+	// The hash is a function of names and bytes only: not of the path, size or time stamp of the archive.
+	// Rewrite the archive in place with one content byte changed (same length with the Store method),
+	// give it its old modification time back, and hash again; likewise for the directory.
+	st, serr := os.Stat(zp)
+	changed := -1
+	for i, f := range prefixed {
+		if len(f.Content) > 0 {
+			changed = i
+			break
+		}
+	}
+	if serr == nil && changed >= 0 {
+		r.Classes = append(r.Classes, "archive rewritten in place")
+		mod := append([]file(nil), prefixed...)
+		nc := append([]byte(nil), mod[changed].Content...)
+		nc[0] ^= 0x20
+		mod[changed].Content = nc
+		zf, _ := os.Create(zp)
+		zw := zip.NewWriter(zf)
+		for i := len(mod) - 1; i >= 0; i-- {
+			w, err := zw.CreateHeader(&zip.FileHeader{Name: mod[i].Name, Method: c.Method, Comment: "ignored", ExternalAttrs: uint32(i)})
+			if err != nil {
+				panic(err)
+			}
+			w.Write(mod[i].Content)
+		}
+		zw.Close()
+		zf.Close()
+		os.Chtimes(zp, st.ModTime(), st.ModTime())
+		want2 := formula(mod)
+		gz2, err := dirhash.HashZip(zp, dirhash.Hash1)
+		if err != nil || gz2 != want2 {
+			st2, _ := os.Stat(zp)
+			r.Fail = pbt.Failf("hashzip-rewritten", "after the archive was rewritten in place with one content byte changed (size %d -> %d, same modification time), HashZip = (%s,%v), formula %s (hash of the previous content: %s)", st.Size(), st2.Size(), gz2, err, want2, want)
+			return r
+		}
+		// the same for the directory
+		fp := filepath.Join(root, filepath.FromSlash(c.Files[changed].Name))
+		if fst, err := os.Stat(fp); err == nil {
+			os.WriteFile(fp, nc, 0o644)
+			os.Chtimes(fp, fst.ModTime(), fst.ModTime())
+			gd2, err := dirhash.HashDir(root, c.Prefix, dirhash.Hash1)
+			if err != nil || gd2 != want2 {
+				r.Fail = pbt.Failf("hashdir-rewritten", "after one file of the directory was rewritten in place (same size and modification time), HashDir = (%s,%v), formula %s", gd2, err, want2)
+				return r
+			}
+		}
 	}
 	return r
 }
